@@ -411,6 +411,27 @@ class NumbaShim(object):
         run = getattr(sim, "run_ctx", None) if sim is not None else None
         return 0 if run is None or run.current is None else int(run.current)
 
+    @property
+    def config(self):
+        return _ConfigShim(self._real.config, self)
+
+    def __getattr__(self, name):
+        return getattr(self._real, name)
+
+
+class _ConfigShim(object):
+    def __init__(self, real, shim):
+        object.__setattr__(self, "_real", real)
+        object.__setattr__(self, "_shim", shim)
+
+    @property
+    def NUMBA_NUM_THREADS(self):
+        return self._shim.get_num_threads()
+
+    @property
+    def NUMBA_DEFAULT_NUM_THREADS(self):
+        return self._shim.get_num_threads()
+
     def __getattr__(self, name):
         return getattr(self._real, name)
 
